@@ -4,6 +4,9 @@ package expr
 
 import (
 	dtpb "github.com/google/fhir/go/proto/google/fhir/proto/r4/core/datatypes_go_proto"
+	orgpb "github.com/google/fhir/go/proto/google/fhir/proto/r4/core/resources/organization_go_proto"
+	ppb "github.com/google/fhir/go/proto/google/fhir/proto/r4/core/resources/patient_go_proto"
+	perpb "github.com/google/fhir/go/proto/google/fhir/proto/r4/core/resources/person_go_proto"
 	"github.com/verily-src/fhirpath-go/fhirpath/system"
 	"github.com/verily-src/fhirpath-go/internal/verifrt"
 )
@@ -41,6 +44,28 @@ func VerifHarness_C01_NavigationTotal() {
 	name := []string{"name", "given", "value", "reference", "valueUs", "nosuch", "birth_date", "deceased", "id", "extension"}[verifrt.Choose("field", 10)]
 	e := &FieldExpression{FieldName: name, Permissive: verifrt.NondetBool("permissive")}
 	res, err := e.Evaluate(&Context{ExternalConstants: map[string]any{}}, system.Collection{item})
+	verifrt.Assert(err != nil || res != nil, "returns-a-collection-or-an-error")
+	verifrt.Reach("end")
+}
+
+// C01: one field step over a collection whose items are of different types - several input resources, the entries of
+// a bundle - returns a collection or an error: in particular for backbone components that share their short name
+// across resources (Patient.Contact / Organization.Contact, Patient.Link / Person.Link), where each item has to be
+// read with the descriptor of its own type.
+func VerifHarness_C01_HeterogeneousNavigation() {
+	pc := &ppb.Patient_Contact{Name: &dtpb.HumanName{Family: &dtpb.String{Value: "p"}}}
+	oc := &orgpb.Organization_Contact{Name: &dtpb.HumanName{Family: &dtpb.String{Value: "o"}}}
+	pl := &ppb.Patient_Link{}
+	rl := &perpb.Person_Link{}
+	pool := []any{pc, oc, pl, rl, &dtpb.HumanName{}, &ppb.Patient{Contact: []*ppb.Patient_Contact{pc}}, &orgpb.Organization{Contact: []*orgpb.Organization_Contact{oc}}}
+	n := 2 + verifrt.Choose("n", 2)
+	var in system.Collection
+	for i := 0; i < n; i++ {
+		in = append(in, pool[verifrt.Choose("item", len(pool))])
+	}
+	name := []string{"name", "contact", "other", "target", "family"}[verifrt.Choose("field", 5)]
+	e := &FieldExpression{FieldName: name, Permissive: verifrt.NondetBool("permissive")}
+	res, err := e.Evaluate(&Context{ExternalConstants: map[string]any{}}, in)
 	verifrt.Assert(err != nil || res != nil, "returns-a-collection-or-an-error")
 	verifrt.Reach("end")
 }
